@@ -38,7 +38,7 @@ def make_history(R, nfiles):
         elif k < 0.80:
             ops.append((R.choice([b'w! other', b'1,1w! other', b'w other2']), 'write-other'))
         elif k < 0.85:
-            ops.append((R.choice([b'e!', b'e!', b'e! +1s/^/R/', b'e! +$d']), 'reload'))
+            ops.append((R.choice([b'e!', b'e!', b'e! +1s/^/R/', b'e! +$d', b'rx z empty %\ne!', b'rx z empty %\ne!']), 'reload'))     # (the file emptied behind the editor and read again at once)
         elif k < 0.95:
             j = R.randint(1, nfiles)
             ops.append((R.choice([b'e f%d', b'e! f%d', b'e! f%d', b'e +1s/^/P/ f%d', b'e! +1d f%d', b'e +2 f%d', b'e! +$s/$/Q/ f%d']) % j, 'edit'))
@@ -300,6 +300,29 @@ def unnamed_scenario(args):
     return 'ok', wit
 
 
+def vi_unnamed_scenario(args):
+    """vi without a file name: text typed into the unnamed buffer, window commands (each redraw of another window switches
+    buffers internally), then :q / ZZ: the editor must still be there and still hold the text"""
+    vi, idx = args
+    R = rng('c02', 'viun', idx)
+    text = ''.join(R.choice(['hello', 'x', 'été', ' ', 'World']) for _ in range(R.randint(1, 4))) or 'x'
+    keys = 'i' + text + '\x1b'
+    keys += ''.join(R.choice(['\x17s', '\x17s', '\x17j', '\x17k', '\x17o', '\x17c', '\x17x', 'j', ':e /\n']) for _ in range(R.randint(1, 5)))
+    quit_keys = R.choice([':q\n', ':q\n', 'ZZ', ':x\n'])
+    keys += quit_keys + ':w! sentinel\n'
+    r, d = common.run_vi(vi, keys.encode(), files={'f1': b'other\n'}, args=[], timeout=30)
+    got = common.readf(d, 'sentinel')
+    common.rmcase(d)
+    wit = {'index': idx, 'keys': keys}
+    if r.timed_out or common.san_report(r):
+        return None, wit
+    if got is None:
+        return ('quit-discards', 'vi, unnamed buffer with the text %r, keys %s: the editor exited (nothing was written after the quit attempt)' % (text, common.show(keys.encode(), 80))), wit
+    if got != (text + '\n').encode():
+        return ('switch-from-dirty', 'vi, unnamed buffer with the text %r, keys %s: afterwards the current buffer holds %r' % (text, common.show(keys.encode(), 80), common.show(got, 60))), wit
+    return 'ok', wit
+
+
 def run(tier, V):
     vi = build('plain')
     n = 400 if tier == 'quick' else 4000
@@ -332,9 +355,18 @@ def run(tier, V):
             V.violation(res_u[0], res_u[1], wit)
         elif res_u == 'ok':
             un_ok += 1
+    nvu = 150 if tier == 'quick' else 2000
+    for res_u, wit in pmap(vi_unnamed_scenario, [(vi, base + i) for i in range(nvu)]):
+        if res_u is None:
+            V.inconclusive += 1
+        elif isinstance(res_u, tuple):
+            V.violation(res_u[0], res_u[1], wit)
+        else:
+            un_ok += 1
+    nun += nvu
     cov = {'evaluations': checks + nw + 1 + nfull + nun, 'unnamed_buffer_scenarios': nun, 'unnamed_refusals_or_saves_observed': un_ok, 'distinct_nontrivial': dirty + nw + nfull, 'full_table_scenarios': nfull, 'histories': n, 'prefix_probes': checks, 'probes_with_a_dirty_buffer': dirty, 'saved_position_walks': nw,
            'rule': ('%d random histories (modify, u, redo, w, w!, partial own-path writes, writes to other paths, e!, e, e!, e +cmd / e! +cmd with commands that edit, e #, b N/+/-, several commands on one line) over 2-4 files; EVERY prefix is run in a fresh process followed by a probe '
-                    '(list, dump of every open buffer, attempt :q / :e / :b without !, list).  oracle: dumped text vs the file now on disk.  + %d edit/save/undo/redo walks with a position model (both directions) + the 17-path LRU scenario + scenarios with 12-16 buffers open, dirty ones anywhere in the MRU table, then :q/:x/:wq + scenarios that start without a file name and write to pipes, parts, new names before :q/:x/:wq/:e. '
+                    '(list, dump of every open buffer, attempt :q / :e / :b without !, list).  oracle: dumped text vs the file now on disk.  + %d edit/save/undo/redo walks with a position model (both directions) + the 17-path LRU scenario + scenarios with 12-16 buffers open, dirty ones anywhere in the MRU table, then :q/:x/:wq + scenarios that start without a file name and write to pipes, parts, new names before :q/:x/:wq/:e, or (vi) split and switch windows first. '
                     'non-trivial = a probe in which some open buffer differed from its file (the refusal path was exercised), or a walk.' % (n, nw)),
            'samples': [{'prefix': [c.decode() for c, _ in make_history(rng('c02', base), 3)][:8]}]}
     assumptions = ['no foreign writer: "content when last read or written" is what is on disk when the probe runs', 'aw/wa options off',
